@@ -253,9 +253,19 @@ func (g *seqGen) c11Script(r *RNG) []Op {
 	if r.Bool(40) {
 		keep = 1 + r.Intn(2)
 	}
+	// interrupted variant: the supersession comes in two halves with a primary GC cycle in between whose context expires while
+	// the freelist is being applied (the hand-over file stays behind): the next complete cycle has TWO non-empty freelist passes
+	// (the left-over hand-over file, then the entries recorded since), and the files named by either must be revisited
+	cutAt := -1
+	if len(g.keys) > keep+2 && r.Bool(40) {
+		cutAt = keep + 1 + r.Intn(len(g.keys)-keep-1)
+	}
 	for i, k := range g.keys {
 		if i < keep {
 			continue
+		}
+		if i == cutAt {
+			ops = append(ops, mkOp("flush"), mkOp("pgc", "lowuse", "85", "budget", strconv.Itoa(r.Intn(4))), mkOp("view"), mkOp("disk"))
 		}
 		if r.Bool(50) {
 			ops = append(ops, mkOp("rm", "k", hx(k)))
